@@ -1,6 +1,7 @@
 """C03 — every accepted statement reaches each sink once, in thread order (DESIGN §4 C03)."""
 from qlib import (peel_not, AnalysisBroken, strip, isnode, walk, is_call, norm_cmp, var_ref, is_null, const_val, short, call_obj,
                   expr_key, field_name, is_this_field)
+from rules.c02 import cmp_sides as cmp_sides_
 from rules.common import (core_and_neg, tnode, other, cpos, npos, branches_on_call, flatten, in_subtree, try_stack,
                           handler_info, loops_enclosing, need_some, returns_bool, branches_on_var_null)
 import roles as roles_mod
@@ -32,9 +33,22 @@ def run(ctx):
         r4(ctx, facts, cfg)
         r5(ctx, facts, cfg)
         r6(ctx, facts, cfg)
+        r6_ring(ctx, facts, cfg)
         r7(ctx, facts, cfg)
         transit_event_transfer(ctx, facts, cfg, "C03.R4")
+        # the backend sees every thread's queue: registration, the 'new context' flag and the cache reload (shared with C20.R5)
+        from rules import c20
+        from rules.c09 import Renamed as _Renamed
+        c20.r5(_Renamed(ctx, "C20.R5", "C03.R8"), facts, cfg)
+        c20.registry_walks(_Renamed(_Renamed(ctx, "C20.R5", "C03.R8"), "C20.R2f", "C03.R8h"), facts, cfg)
         union_discriminant(ctx, facts, cfg)
+        # a queued statement keeps its logger: loggers are erased only when everything is drained (shared with C17.R3); a statement that
+        # fits under the maximum is accepted (C02.R4 in its strict form, shared with C09.R4)
+        from rules import c17, c02 as _c02
+        c17.r3(_Renamed(ctx, "C17.R3", "C03.R9"), facts, cfg)
+        _bn = {m.base: m for m in facts.fns if m.config == cfg and m.cls == _c02.CLS and not m.rec.get("ctor") and not m.rec.get("dtor")}
+        _c02.check_r4(_Renamed(ctx, "C02.R4", "C03.R9-cap-"), _bn, strict=True)
+        queue_kind_tables(ctx, facts, cfg)
         buffered_iff_true(ctx, facts, cfg)
         from rules import c02
         from rules.c09 import Renamed
@@ -406,6 +420,129 @@ def r6(ctx, facts, cfg):
                "%s() advances %s by exactly one" % (mname, pos), fn=m)
 
 
+def r6_ring(ctx, facts, cfg):
+    """R6d-h: the rest of the per-thread event ring: what empty / size mean, when front has nothing, when back grows, by how much,
+    and when it shrinks"""
+    TB = "quill::detail::TransitEventBuffer::"
+    def single_ret(m):
+        rets = [m.g.node_ast(r).get("val") for r in m.g.return_nodes()]
+        return strip(rets[0], casts=True) if len(rets) == 1 else None
+    e = facts.need(TB + "empty", cfg)[0]
+    v = single_ret(e)
+    ok_e = isnode(v) and v["k"] == "BinaryOperator" and v["op"] == "==" and {field_name(v["lhs"]), field_name(v["rhs"])} == {"_reader_pos", "_writer_pos"} and \
+        is_this_field(v["lhs"]) and is_this_field(v["rhs"])
+    sz = facts.need(TB + "size", cfg)[0]
+    v = single_ret(sz)
+    ok_s = isnode(v) and v["k"] == "BinaryOperator" and v["op"] == "-" and is_this_field(v["lhs"], "_writer_pos") and is_this_field(v["rhs"], "_reader_pos")
+    ctx.ob("C03.R6d", "TransitEventBuffer::empty/size", ok_e and ok_s,
+           "empty() is reader == writer and size() is writer - reader (what the drain, clean-up and limit tests of the backend rest on): "
+           "empty %s, size %s" % (ok_e, ok_s), fn=e)
+    fr = facts.need(TB + "front", cfg)[0]
+    g = fr.g
+    nul = [r for r in g.return_nodes() if is_null(g.node_ast(r).get("val"))]
+    oth = [r for r in g.return_nodes() if r not in nul]
+    et = []
+    for bid, b in g.blocks.items():
+        c = g.term_cond(bid)
+        nc = norm_cmp(c) if c is not None else None
+        if nc and nc[0] in ("==", "!=") and {nc[1], nc[2]} == {"this._reader_pos", "this._writer_pos"}:
+            et.append((bid, "T" if nc[0] == "==" else "F"))
+        elif c is not None and is_call(core_and_neg(c)[0], r"TransitEventBuffer::empty$"):
+            et.append((bid, "F" if core_and_neg(c)[1] else "T"))
+    ok = bool(nul) and bool(oth) and bool(et) and not g.exists_path([g.entry_node], nul, avoid_edges=et) and \
+        not g.exists_path([g.entry_node], oth, avoid_edges=[(b, other(l)) for (b, l) in et])
+    ctx.ob("C03.R6e", "TransitEventBuffer::front:nothing-iff-empty", ok,
+           "front() returns nullptr exactly on the 'reader == writer' outcome and a slot otherwise", fn=fr)
+    bk = facts.need(TB + "back", cfg)[0]
+    g = bk.g
+    ex = npos(bk, bk.calls(r"TransitEventBuffer::_expand$"))
+    full = []
+    for bid, b in g.blocks.items():
+        c = g.term_cond(bid)
+        nc = norm_cmp(c) if c is not None else None
+        if nc and nc[0] in ("==", "!=") and "this._capacity" in (nc[1], nc[2]) and any(is_call(x, r"TransitEventBuffer::size$") for x in walk(c)):
+            full.append((bid, "T" if nc[0] == "==" else "F"))
+        elif nc and nc[0] in ("<=",) and nc[1] == "this._capacity" and any(is_call(x, r"TransitEventBuffer::size$") for x in walk(c)):
+            full.append((bid, "T"))
+    slot = [r for r in g.return_nodes()]
+    ok = bool(ex) and bool(full) and not g.exists_path([g.entry_node], ex, avoid_edges=full) and \
+        all(not g.exists_path([tnode(g, b)], slot, avoid_nodes=ex, avoid_edges=[(b, other(l))]) for (b, l) in full)
+    ctx.ob("C03.R6f", "TransitEventBuffer::back:grows-iff-full", ok,
+           "back() grows the ring exactly on the 'capacity == size()' outcome, before the slot is handed out (a slot is never the one "
+           "the oldest unprocessed event still occupies)", fn=bk)
+    f = facts.need(TB + "_expand", cfg)[0]
+    inits = f.var_inits()
+    ncap = [vid for vid, i in inits.items() if isnode(strip(i, casts=True)) and strip(i, casts=True)["k"] == "BinaryOperator" and
+            ((strip(i, casts=True)["op"] == "*" and is_this_field(strip(i, casts=True)["lhs"], "_capacity") and const_val(strip(i, casts=True)["rhs"]) == 2) or
+             (strip(i, casts=True)["op"] == "*" and is_this_field(strip(i, casts=True)["rhs"], "_capacity") and const_val(strip(i, casts=True)["lhs"]) == 2) or
+             (strip(i, casts=True)["op"] == "<<" and is_this_field(strip(i, casts=True)["lhs"], "_capacity") and const_val(strip(i, casts=True)["rhs"]) == 1))]
+    alloc = [c for c in f.calls(r"^std::make_unique<quill::(v\d+::)?detail::TransitEvent\s*\[\]") or f.calls(r"^std::make_unique<")]
+    nsv = [vid for vid, i in inits.items() if isnode(i) and any(in_subtree(c, i) for c in alloc)]
+    cap_asg = [n for n in f.walk() if n["k"] == "BinaryOperator" and n["op"] == "=" and is_this_field(n["lhs"], "_capacity")]
+    st_asg = [c for c in f.calls(r"unique_ptr<.*>::operator=$") if is_this_field(strip(c["args"][0]), "_storage")]
+    ok = len(ncap) == 1 and bool(alloc) and all(var_ref(c["args"][0]) == ncap[0] for c in alloc) and len(cap_asg) == 1 and var_ref(cap_asg[0]["rhs"]) == ncap[0] and \
+        len(st_asg) == 1 and bool(nsv) and any(x["k"] == "DeclRefExpr" and x.get("did") == nsv[0] for x in walk(st_asg[0]["args"][1])) and \
+        not f.g.exists_path([f.g.entry_node], [f.g.exit_node], avoid_nodes=npos(f, st_asg)) and not f.g.exists_path([f.g.entry_node], [f.g.exit_node], avoid_nodes=npos(f, cap_asg))
+    ctx.ob("C03.R6g", "TransitEventBuffer::_expand:doubles-and-installs", ok,
+           "the new ring has twice the capacity (stays a power of two, so 'capacity - 1' stays a mask), is allocated with that capacity, "
+           "and both the storage and the capacity are replaced by the new ones on every path", fn=f)
+    # R6i: every capacity the ring can have is a power of two, so 'capacity - 1' is a mask: the constructor rounds the requested
+    # capacity up and keeps the *rounded* value as the one try_shrink returns to
+    ctors = [x for x in facts.fns if x.config == cfg and x.cls == "quill::detail::TransitEventBuffer" and x.rec.get("ctor") and
+             len(x.rec.get("params") or []) == 1 and not x.rec["params"][0]["ty"].endswith("&&") and "TransitEventBuffer" not in x.rec["params"][0]["ty"]]
+    if not ctors:
+        raise AnalysisBroken("TransitEventBuffer(size_t) constructor not found")
+    c0 = ctors[0]
+    ini = {i.get("member"): i.get("expr") for i in c0.rec.get("inits") or []}
+    def rounded(e):
+        return isnode(e) and any(is_call(x, r"(^|::)next_power_of_two(<.*>)?$") for x in walk(e))
+    def is_field_or_rounded(e, fld):
+        return rounded(e) or is_this_field(strip(e, casts=True), fld)
+    mk = strip(ini.get("_mask"), casts=True)
+    ok = rounded(ini.get("_initial_capacity")) and is_field_or_rounded(ini.get("_capacity"), "_initial_capacity") and \
+        isnode(mk) and mk["k"] == "BinaryOperator" and mk["op"] == "-" and const_val(mk["rhs"]) == 1 and is_this_field(strip(mk["lhs"], casts=True), "_capacity")
+    others = [x for x in facts.fns if x.config == cfg and x.cls == "quill::detail::TransitEventBuffer" and not x.rec.get("ctor") and x.base != "operator=" and
+              any(n["k"] in ("BinaryOperator", "CompoundAssignOperator") and n.get("op", "").endswith("=") and n.get("op") not in ("==", "!=", "<=", ">=") and
+                  is_this_field(n.get("lhs"), "_initial_capacity") for n in x.walk())]
+    ctx.ob("C03.R6i", "TransitEventBuffer::TransitEventBuffer:capacities-are-powers-of-two", ok and not others,
+           "the initial capacity is stored rounded up to a power of two (next_power_of_two), the capacity starts as that value and the mask "
+           "as capacity - 1; nothing else writes the initial capacity — try_shrink returns to it and derives a mask from it", fn=c0)
+    ts = facts.need(TB + "try_shrink", cfg)[0]
+    g = ts.g
+    sto = npos(ts, [c for c in ts.calls(r"unique_ptr<.*>::operator=$") if is_this_field(strip(c["args"][0]), "_storage")])
+    req = []
+    emp = [(b, t) for (b, t, c) in branches_on_call(ts, r"TransitEventBuffer::empty$")]
+    for bid, b in g.blocks.items():
+        c = g.term_cond(bid)
+        if c is None:
+            continue
+        core, neg = core_and_neg(c)
+        if is_this_field(strip(core, casts=True), "_shrink_requested"):
+            req.append((bid, "F" if neg else "T"))
+    big = []
+    for bid, b in g.blocks.items():
+        c = g.term_cond(bid)
+        cs = cmp_sides_(c) if c is not None else None
+        if cs and cs[0] == "<" and is_this_field(strip(cs[1], casts=True), "_initial_capacity") and is_this_field(strip(cs[2], casts=True), "_capacity"):
+            big.append((bid, "T"))
+    resets = {}
+    for n in ts.walk():
+        if n["k"] == "BinaryOperator" and n["op"] == "=" and is_this_field(n["lhs"]):
+            resets[field_name(n["lhs"])] = n
+    mk = strip(resets.get("_mask", {}).get("rhs"), casts=True) if "_mask" in resets else None
+    vals_ok = "_capacity" in resets and is_this_field(strip(resets["_capacity"]["rhs"], casts=True), "_initial_capacity") and \
+        isnode(mk) and mk["k"] == "BinaryOperator" and mk["op"] == "-" and const_val(mk["rhs"]) == 1 and is_this_field(mk["lhs"], "_capacity") and \
+        const_val(resets.get("_reader_pos", {}).get("rhs")) == 0 and const_val(resets.get("_writer_pos", {}).get("rhs")) == 0 and \
+        const_val(resets.get("_shrink_requested", {}).get("rhs")) == 0
+    ok = bool(sto) and bool(req) and bool(emp) and bool(big) and vals_ok and not g.exists_path([g.entry_node], sto, avoid_edges=req) and \
+        not g.exists_path([g.entry_node], sto, avoid_edges=emp) and not g.exists_path([g.entry_node], sto, avoid_edges=big) and \
+        all(not g.exists_path(sto, [g.exit_node], avoid_nodes=g.positions(resets[k])) for k in ("_capacity", "_mask", "_reader_pos", "_writer_pos"))
+    ctx.ob("C03.R6h", "TransitEventBuffer::try_shrink:only-when-empty", ok,
+           "the ring is replaced by one of the initial capacity only when shrinking was requested, the ring is empty and it had grown; "
+           "capacity, mask (capacity - 1) and both positions are reset with it and the request is cleared (no buffered event can be in "
+           "the storage that is dropped)", fn=ts)
+
+
 def r7(ctx, facts, cfg):
     roles, proots, croots = roles_mod.infer(facts, cfg)
     pat = r"(SPSCQueue(Impl<unsigned long>)?::(finish_read|commit_read|prepare_read)|TransitEventBuffer::(pop_front|push_back|back|front))$"
@@ -463,9 +600,30 @@ def transit_event_transfer(ctx, facts, cfg, rule):
             if any(x["k"] == "MemberExpr" and x.get("mname") == m and var_ref(x.get("base")) == src for x in walk(sides[1])):
                 got.add(m)
     missing = [m for m in fields if m not in got]
-    ctx.ob(rule + "t", "TransitEvent::operator=(TransitEvent&&):every-member", not missing,
-           "move assignment — what TransitEventBuffer::_expand uses to carry buffered events into the larger ring — assigns every data "
-           "member from the same member of its source (missing: %s)" % missing, fn=f)
+    # ... on every path: only the self-assignment test may skip an assignment (a member taken over only when the source 'has one'
+    # leaves the destination's old value in a reused slot)
+    g = f.g
+    self_edges = []
+    for bid, b in g.blocks.items():
+        c = g.term_cond(bid)
+        nc = norm_cmp(c) if c is not None else None
+        if nc and nc[0] in ("==", "!=") and any(x["k"] == "CXXThisExpr" for x in walk(c)) and \
+                any(x["k"] == "UnaryOperator" and x.get("op") == "&" and var_ref(x.get("sub")) == src for x in walk(c)):
+            self_edges.append((bid, "T" if nc[0] == "==" else "F"))
+    cond_skipped = []
+    for m in fields:
+        pos = []
+        for n in f.walk():
+            tgt = n["lhs"] if n["k"] == "BinaryOperator" and n["op"] == "=" else \
+                (n["args"][0] if n["k"] == "CXXOperatorCallExpr" and short(n.get("callee") or "").endswith("operator=") and len(n["args"]) == 2 else None)
+            if tgt is not None and is_this_field(tgt, m):
+                pos += g.positions(n)
+        if pos and g.exists_path([g.entry_node], [g.exit_node], avoid_nodes=pos, avoid_edges=self_edges):
+            cond_skipped.append(m)
+    ctx.ob(rule + "t", "TransitEvent::operator=(TransitEvent&&):every-member", not missing and not cond_skipped,
+           "move assignment — what TransitEventBuffer::_expand and the backtrace ring use to carry events into a slot that held another "
+           "event — assigns every data member from the same member of its source, on every path except self-assignment (missing: %s, "
+           "assigned only on some paths: %s)" % (missing, cond_skipped), fn=f)
     # copy_to
     f = cpy[0]
     dst = f.rec["params"][0]["did"]
@@ -485,10 +643,117 @@ def transit_event_transfer(ctx, facts, cfg, rule):
     ctx.ob(rule + "t", "TransitEvent::copy_to:every-member", not missing,
            "copy_to — what the backtrace ring stores — writes every data member of the destination from the same member of this event "
            "(missing: %s)" % missing, fn=f)
+    # copy_to appends to the destination's message buffer and leaves the destination's named args alone when this event has none:
+    # it is only right for a destination that is freshly constructed — every caller hands it a local that was default-constructed and
+    # not touched in between
+    n_calls = 0
+    for cf in [x for x in facts.fns if x.config == cfg]:
+        for c in cf.calls(r"TransitEvent::copy_to$"):
+            n_calls += 1
+            d = var_ref(strip(c["args"][0], casts=True)) if c.get("args") else None
+            inits = cf.var_inits()
+            decl_ok = d is not None and d in inits and (inits[d] is None or (isnode(strip(inits[d], casts=True)) and
+                      strip(inits[d], casts=True)["k"] in ("CXXConstructExpr", "CXXTemporaryObjectExpr", "InitListExpr") and not (strip(inits[d], casts=True).get("args") or [])))
+            uses = [x for x in cf.walk() if x["k"] == "DeclRefExpr" and x.get("did") == d and not in_subtree(x, c)] if d is not None else []
+            cpos_ = cf.g.positions(c)
+            early = [u for u in uses if any(cf.g.exists_path([q], cpos_) for q in cf.g.positions(u))]
+            ctx.ob(rule + "t", "%s:copy_to-into-fresh-event" % cf.short.split("::")[-1], decl_ok and not early,
+                   "the destination of copy_to is a local TransitEvent that is default-constructed and not used before the copy "
+                   "(declared fresh: %s, earlier uses: %d)" % (decl_ok, len(early)), fn=cf)
+    if not n_calls:
+        raise AnalysisBroken("no call of TransitEvent::copy_to found")
     ex = facts.need("quill::detail::TransitEventBuffer::_expand", cfg)[0]
     mv = [c for c in ex.calls(r"TransitEvent::operator=$")]
     ctx.ob(rule + "t", "TransitEventBuffer::_expand:moves-events", bool(mv),
            "growing the per-thread buffer carries the buffered events over with TransitEvent's move assignment", fn=ex)
+
+
+def _eval_bool(e, value_of):
+    """evaluate a boolean combination of ==/!= comparisons against enumerators; value_of(node) -> enumerator name or None"""
+    e = strip(e, casts=True)
+    while isnode(e) and e["k"] == "ParenExpr":
+        e = strip(e.get("sub") or (e.get("c") or [None])[0], casts=True)
+    if not isnode(e):
+        return None
+    if e["k"] == "BinaryOperator" and e["op"] in ("||", "&&"):
+        a, b = _eval_bool(e["lhs"], value_of), _eval_bool(e["rhs"], value_of)
+        if a is None or b is None:
+            return None
+        return (a or b) if e["op"] == "||" else (a and b)
+    if e["k"] == "UnaryOperator" and e["op"] == "!":
+        a = _eval_bool(e["sub"], value_of)
+        return None if a is None else (not a)
+    if e["k"] == "BinaryOperator" and e["op"] in ("==", "!="):
+        a, b = value_of(e["lhs"]), value_of(e["rhs"])
+        if a is None or b is None:
+            return None
+        return (a == b) if e["op"] == "==" else (a != b)
+    if e["k"] == "CXXBoolLiteralExpr":
+        return bool(e.get("val"))
+    return None
+
+
+def queue_kind_tables(ctx, facts, cfg):
+    """exhaustive over QueueType: the four queue-kind predicates of ThreadContext as truth tables, and the arm of the union that the
+    constructor, the destructor and get_spsc_queue<Q> touch"""
+    en = facts.enum("quill::QueueType", cfg)
+    if not en:
+        raise AnalysisBroken("quill::QueueType not found")
+    names = [n for (n, _v) in en["enumerators"]]
+    want = {"has_unbounded_queue_type": lambda q: q.startswith("Unbounded"), "has_bounded_queue_type": lambda q: q.startswith("Bounded"),
+            "has_dropping_queue": lambda q: q.endswith("Dropping"), "has_blocking_queue": lambda q: q.endswith("Blocking")}
+    if not all(any(n.startswith(p) for p in ("Unbounded", "Bounded")) and any(n.endswith(sf) for sf in ("Dropping", "Blocking")) for n in names):
+        raise AnalysisBroken("QueueType enumerators changed: %s — the queue-kind table has to be re-confirmed" % names)
+    TC = "quill::detail::ThreadContext::"
+    for pred, w in want.items():
+        f = facts.need(TC + pred, cfg)[0]
+        rets = [f.g.node_ast(r).get("val") for r in f.g.return_nodes()]
+        bad = []
+        for q in names:
+            def value_of(n, q=q):
+                n = strip(n, casts=True)
+                if is_this_field(n, "_queue_type"):
+                    return q
+                if isnode(n) and n["k"] == "DeclRefExpr" and n.get("dk") == "EnumConstant" and "QueueType::" in n.get("name", ""):
+                    return n["name"].split("::")[-1]
+                return None
+            vals = [_eval_bool(r, value_of) for r in rets]
+            if len(vals) != 1 or vals[0] is None:
+                raise AnalysisBroken("ThreadContext::%s: return expression has a shape no accepted idiom covers" % pred)
+            if vals[0] != w(q):
+                bad.append("%s -> %s" % (q, vals[0]))
+        ctx.ob("C03.R7v", "ThreadContext::%s:truth-table" % pred, not bad,
+               "exhaustive over QueueType %s: the predicate is true exactly for the kinds its name says (%s)" % (names, "; ".join(bad) or "table as expected"), fn=f)
+    # constructor / destructor: the arm constructed / destroyed is the arm of the kind
+    for f in [x for x in facts.fns if x.config == cfg and x.cls == "quill::detail::ThreadContext" and (x.rec.get("ctor") or x.rec.get("dtor")) and
+              any(n["k"] == "MemberExpr" and n.get("mname") in ("unbounded_spsc_queue", "bounded_spsc_queue") for n in x.walk())]:
+        g = f.g
+        ub = [(b, t) for (b, t, c) in branches_on_call(f, r"ThreadContext::has_unbounded_queue_type$")]
+        bb = [(b, t) for (b, t, c) in branches_on_call(f, r"ThreadContext::has_bounded_queue_type$")]
+        pu = sorted(set(p_ for n in f.walk() if n["k"] == "MemberExpr" and n.get("mname") == "unbounded_spsc_queue" for p_ in (g.positions(n) or [])))
+        pbq = sorted(set(p_ for n in f.walk() if n["k"] == "MemberExpr" and n.get("mname") == "bounded_spsc_queue" for p_ in (g.positions(n) or [])))
+        ok = bool(pu) and bool(pbq) and bool(ub) and not g.exists_path([g.entry_node], pu, avoid_edges=ub) and \
+            ((bool(bb) and not g.exists_path([g.entry_node], pbq, avoid_edges=bb)) or
+             (not bb and not g.exists_path([g.entry_node], pbq, avoid_edges=[(b, other(t)) for (b, t) in ub]))) and \
+            all(g.exists_path([y for (y, lab) in g.succ.get(tnode(g, b), ()) if lab == t], pu) for (b, t) in ub)
+        ctx.ob("C03.R7w", "ThreadContext::%s:union-arm" % ("ThreadContext" if f.rec.get("ctor") else "~ThreadContext"), ok,
+               "the %s the unbounded queue exactly on 'has an unbounded queue' and the bounded one exactly on 'has a bounded queue'" %
+               ("constructor placement-constructs" if f.rec.get("ctor") else "destructor destroys"), fn=f)
+    # get_spsc_queue<Q>: the arm returned matches Q in every instantiation
+    n = 0
+    for f in facts.fns:
+        if f.config != cfg or f.short != "quill::detail::ThreadContext::get_spsc_queue":
+            continue
+        targs = f.rec.get("targs") or []
+        q = (targs[0] if targs else "").split("::")[-1]
+        arms = sorted(set(x.get("mname") for x in f.walk() if x["k"] == "MemberExpr" and x.get("mname") in ("unbounded_spsc_queue", "bounded_spsc_queue")))
+        if not q:
+            continue
+        n += 1
+        ctx.ob("C03.R7w", "ThreadContext::get_spsc_queue<%s>%s:union-arm" % (q, " const" if "const" in (f.rec.get("sig") or "")[-12:] else ""),
+               arms == (["unbounded_spsc_queue"] if q.startswith("Unbounded") else ["bounded_spsc_queue"]),
+               "get_spsc_queue<%s> returns the %s arm (found %s)" % (q, "unbounded" if q.startswith("Unbounded") else "bounded", arms), fn=f)
+    ctx.floor("C03.R7w", "get_spsc_queue instantiations", n, 4)
 
 
 def union_discriminant(ctx, facts, cfg):
